@@ -558,7 +558,8 @@ def np_vsingl(words):
 def np_fsingl(words):
     """-> (values as float64, is_nan).  Conversion binary32 -> binary64 is exact."""
     w = np.asarray(words).astype('>u4')
-    v = w.view('>f4').astype(np.float64)
+    with np.errstate(invalid='ignore'):
+        v = w.view('>f4').astype(np.float64)
     wi = _i64(words)
     nan = (((wi >> 23) & 0xFF) == 0xFF) & ((wi & 0x7FFFFF) != 0)
     return v, nan
@@ -638,8 +639,11 @@ def self_check(rng, n=2000):
         for k in range(bits):
             ws.add(1 << k)
             ws.add(((1 << bits) - 1) ^ (1 << k))
-        while len(ws) < n + 4 * bits:
-            ws.add(rng.getrandbits(bits))
+        if bits <= 16:
+            ws.update(range(0, 1 << bits, 1 if bits == 8 else 7))
+        else:
+            for _ in range(n):
+                ws.add(rng.getrandbits(bits))
         ws = sorted(ws)
         arr = np.array(ws, dtype=np.uint64)
         vals, asserted, nan = np_decode(code, arr)
